@@ -18,6 +18,9 @@ import (
 func init() {
 	register("C03", "model_checking", C03)
 	Replayers["C03"] = func(raw []byte) string {
+		if out, ok := replayForeign(raw, "C03"); ok {
+			return out
+		}
 		return replayFatHistory(raw, "range", func() []*fatScen { return c03Scens(false) })
 	}
 }
@@ -240,6 +243,22 @@ func C03(r *ev.Run) {
 		}
 		tblOK++
 	}
+	// ---- the same for tables that were read from a disk partitioned by another tool (other entry-array sizes; first
+	// usable sector directly behind a short array) and are written back, unchanged or modified
+	var frn, frnOK int64
+	for _, fc := range enumForeign(r.Quick()) {
+		fc := fc
+		res := runForeignCase(&fc)
+		if res.Outcome != "ok" && res.Outcome != "write-refused" {
+			continue
+		}
+		frn++
+		if res.C03Sig != "" {
+			r.Report(res.C03Sig, res.C03Msg, map[string]any{"foreign": fc})
+			continue
+		}
+		frnOK++
+	}
 	// ---- writing partition contents changes only bytes of that partition (the C13 geometries and reader shapes, judged
 	// here only by the write monitor and the byte comparison outside the partition)
 	var pio, pioOK int64
@@ -273,6 +292,8 @@ func C03(r *ev.Run) {
 	r.Set("partition_content_cases_inside_partition", pioOK)
 	r.Set("finalize_cases", fin)
 	r.Set("finalize_cases_inside_range", finOK)
+	r.Set("foreign_table_cases", frn)
+	r.Set("foreign_table_cases_only_own_sectors", frnOK)
 	r.Set("table_cases", tbl)
 	r.Set("table_cases_only_own_sectors", tblOK)
 	r.Assume("memdev range monitor: every WriteAt that reaches the device is checked against [start,start+size) (tables: the table's own sectors); guard regions are compared as a second opinion")
